@@ -93,9 +93,64 @@ class Acc(Item):
         return self
 
 
+class GrumpyError(Exception):
+    """raised by a Grumpy item's special method"""
+
+
+class Grumpy:
+    """An item one of whose special methods raises: ["G", what, uid] with what in
+    bool | lt | eq | hash | add.  Both the library and the stdlib must let that error through."""
+
+    __slots__ = ("what", "uid", "__weakref__")
+
+    def __init__(self, what, uid):
+        self.what, self.uid = what, uid
+
+    def __repr__(self):
+        return f"Grumpy({self.what},{self.uid})"
+
+    def _maybe(self, what):
+        if self.what == what:
+            raise GrumpyError(what)
+
+    def __bool__(self):
+        self._maybe("bool")
+        return True
+
+    def __lt__(self, other):
+        self._maybe("lt")
+        return False
+
+    def __gt__(self, other):
+        self._maybe("lt")
+        return False
+
+    def __eq__(self, other):
+        self._maybe("eq")
+        return self is other
+
+    def __ne__(self, other):
+        self._maybe("eq")
+        return self is not other
+
+    def __hash__(self):
+        self._maybe("hash")
+        return 7
+
+    def __add__(self, other):
+        self._maybe("add")
+        return self
+
+    def __radd__(self, other):
+        self._maybe("add")
+        return self
+
+
 def mat(v):
     """Materialise a value descriptor into a fresh live object."""
     t = v[0]
+    if t == "G":
+        return Grumpy(v[1], v[2])
     if t == "I":
         return Item(v[1], v[2])
     if t == "A":
@@ -131,6 +186,8 @@ def sig(o):
         return ("A", o.key, _uid(o.uid), tuple(o.log))
     if isinstance(o, Item):
         return ("I", o.key, _uid(o.uid))
+    if isinstance(o, Grumpy):
+        return ("G", o.what, o.uid)
     if o is None:
         return ("n",)
     tp = type(o)
@@ -169,7 +226,7 @@ def all_uids(vs):
     """uids of the Items in a list of value descriptors (top level and nested)."""
     out = []
     for v in vs:
-        if v[0] in ("I", "A"):
+        if v[0] in ("I", "A", "G"):
             out.append(v[2])
         elif v[0] in ("t", "l"):
             out.extend(all_uids(v[1]))
